@@ -164,6 +164,44 @@ fn probe(world: &crate::hist::World, max_ann: Option<u32>, api: bool, sync: bool
     if let Err(p) = sut::info() {
         out.fail(format!("{ctx}: get_blockchain_info trapped: {p}"));
     }
+    // the metrics endpoint answers regardless, without effect, and describes the same state
+    out.checks += 1;
+    let before = digest();
+    let url = if k % 2 == 0 { "/metrics" } else { "/metrics?probe=1" };
+    match sut::http(url) {
+        Err(p) => out.fail(format!("{ctx}: the metrics endpoint trapped (api_access={api}, sync gate={sync}): {p}")),
+        Ok((code, m)) => {
+            if code != 200 {
+                out.fail(format!("{ctx}: the metrics endpoint answered with status {code} (api_access={api}, sync gate={sync})"));
+            } else {
+                if !api || not_synced {
+                    out.class("metrics_answered_while_data_endpoints_refuse");
+                }
+                let want_synced = !max_ann.map(|m| m > best_h + 2).unwrap_or(false);
+                let checks: [(&str, f64); 3] = [
+                    ("main_chain_height", best_h as f64),
+                    ("is_synced", if want_synced { 1.0 } else { 0.0 }),
+                    ("api_access{flag=\"enabled\"}", if api { 1.0 } else { 0.0 }),
+                ];
+                for (name, want) in checks {
+                    out.checks += 1;
+                    if sut::metric(&m, name) != Some(want) {
+                        out.fail(format!("{ctx}: metrics endpoint reports {name} = {:?}, the state it describes has {want} (highest announced header {:?}, best height {best_h})", sut::metric(&m, name), max_ann));
+                    }
+                }
+            }
+        }
+    }
+    if digest() != before {
+        out.fail(format!("{ctx}: a request to the metrics endpoint changed the state"));
+    }
+    if k % 3 == 0 {
+        out.checks += 1;
+        match sut::http("/other") {
+            Ok((404, _)) => {}
+            other => out.fail(format!("{ctx}: http_request for an unknown path: {:?}", other.map(|x| x.0))),
+        }
+    }
     if not_synced {
         out.class("not_synced_state");
         if max_ann == Some(best_h + 3) {
@@ -369,7 +407,7 @@ impl Property for C14 {
         }
     }
     fn rule(&self) -> String {
-        "Heartbeat-driver scenarios on regtest where the block source delivers 1..2 blocks per reply, or one block in 2..4 pages, and announces 0..6 further headers (with the complete reply, or with the first page of a paged one) (on the best chain and on forks; stale after a fork loses; removed when their block arrives or the stable height reaches them), with api_access and disable_api_if_not_fully_synced switched by set_config events and upgrades in between. After every heartbeat and at probe events every endpoint (get_utxos, get_utxos_query, get_balance, get_balance_query, get_block_headers, get_current_fee_percentiles, send_transaction) is called with the canister's network in two spellings and with the four foreign spellings. Oracle: refuse <=> api disabled, or another network named, or (sync flag on and the highest announced header, from an independent model of announced headers, is more than 2 above the best-chain height) with send_transaction exempt from the last clause; a refusal is a trap with no change of state, no cycles accepted and nothing forwarded; otherwise a well-formed request is answered; get_config and get_blockchain_info always answer. Two in five cases use the direct driver on regtest with per-block difficulties (heavier-but-shorter best chains), headers announced through insert_next_block_headers on any block of the tree and later delivered or left stale. Non-trivial: a probe in a state where the sync flag is on and an announced header is exactly 2 or 3 above the best height or on a non-best fork; distinct = (flags, best height, announced heights) hashes.".into()
+        "Heartbeat-driver scenarios on regtest where the block source delivers 1..2 blocks per reply, or one block in 2..4 pages, and announces 0..6 further headers (with the complete reply, or with the first page of a paged one) (on the best chain and on forks; stale after a fork loses; removed when their block arrives or the stable height reaches them), with api_access and disable_api_if_not_fully_synced switched by set_config events and upgrades in between. After every heartbeat and at probe events every endpoint (get_utxos, get_utxos_query, get_balance, get_balance_query, get_block_headers, get_current_fee_percentiles, send_transaction) is called with the canister's network in two spellings and with the four foreign spellings. Oracle: refuse <=> api disabled, or another network named, or (sync flag on and the highest announced header, from an independent model of announced headers, is more than 2 above the best-chain height) with send_transaction exempt from the last clause; a refusal is a trap with no change of state, no cycles accepted and nothing forwarded; otherwise a well-formed request is answered; get_config, get_blockchain_info and the metrics endpoint (http_request /metrics, executed natively through stand-ins for its three system calls) always answer, the latter with status 200, without effect, and with main_chain_height / is_synced / api_access describing the same state. Two in five cases use the direct driver on regtest with per-block difficulties (heavier-but-shorter best chains), headers announced through insert_next_block_headers on any block of the tree and later delivered or left stale. Non-trivial: a probe in a state where the sync flag is on and an announced header is exactly 2 or 3 above the best height or on a non-best fork; distinct = (flags, best height, announced heights) hashes.".into()
     }
     fn assumptions(&self) -> Vec<String> {
         vec![
@@ -378,7 +416,7 @@ impl Property for C14 {
         ]
     }
     fn required_classes(&self, _tier: Tier) -> Vec<&'static str> {
-        vec!["not_synced_state", "announced_exactly_2_ahead", "announced_exactly_3_ahead", "send_transaction_exempt_from_sync_rule", "api_disabled_probe", "foreign_network_probe", "refused_by_sync_rule", "announced_on_losing_fork", "direct_driver_case", "gate_decided_by_difficulty_not_length", "announced_block_delivered", "paged_reply_planned"]
+        vec!["not_synced_state", "announced_exactly_2_ahead", "announced_exactly_3_ahead", "send_transaction_exempt_from_sync_rule", "api_disabled_probe", "foreign_network_probe", "refused_by_sync_rule", "announced_on_losing_fork", "direct_driver_case", "metrics_answered_while_data_endpoints_refuse", "gate_decided_by_difficulty_not_length", "announced_block_delivered", "paged_reply_planned"]
     }
     fn max_shrink_iters(&self) -> u32 {
         400
